@@ -17,6 +17,23 @@ for f in d['findings']:
     p=f"{out}/{f['id']}"
     os.makedirs(p,exist_ok=True)
     open(p+'/fix.diff','w').write(r.stdout)
+    # does the reverse still apply to HEAD? otherwise try a three-way revert in a scratch worktree
+    chk=subprocess.run(['git','-C','/repo','apply','-R','--check',p+'/fix.diff'],capture_output=True)
+    if chk.returncode!=0:
+        wt='/tmp/regress_wt'
+        subprocess.run(['git','-C','/repo','worktree','remove','--force',wt],capture_output=True)
+        subprocess.run(['git','-C','/repo','worktree','add','-q','--detach',wt,'HEAD'],check=True)
+        # later fixes of the same lines (revert_with) are taken back first
+        for extra in f.get('revert_with',[]):
+            subprocess.run(['git','-C',wt,'revert','--no-commit',extra],capture_output=True,text=True)
+        rv=subprocess.run(['git','-C',wt,'revert','--no-commit',c],capture_output=True,text=True)
+        if rv.returncode==0:
+            dd=subprocess.run(['git','-C',wt,'diff','HEAD','--','*.go',':!*_test.go'],capture_output=True,text=True).stdout
+            if dd.strip():
+                open(p+'/revert.diff','w').write(dd); print('three-way revert stored for',f['id'],c)
+        else:
+            print('revert conflicts for',f['id'],c,'(the self-test skips it)')
+        subprocess.run(['git','-C','/repo','worktree','remove','--force',wt],capture_output=True)
     json.dump({'id':f['id'],'property':f['property'],'rule':f['rule'],'construct':f['construct'],'commit':c},open(p+'/meta.json','w'),indent=1)
     n+=1
 print(n,'regress entries')
